@@ -64,7 +64,7 @@ static const Profile& profileFor(const std::string &prop)
         P["C10"] = { "C10", K_ALL, true, true, false,
             cat({BUILD, CHURN, {{"copy", 50}, {"bin", 6}}}), false, false };
         P["C11"] = { "C11", K_ALL|K(FK_IDX), true, true, false,
-            cat({BUILD, {{"iter", 25}, {"iteropen", 5}, {"iterstep", 12}, {"card", 15}, {"counts", 12}, {"bin", 8}, {"release", 4}, {"index", 3}}}), false, false };
+            cat({BUILD, {{"iter", 25}, {"iteropen", 5}, {"iterstep", 12}, {"card", 15}, {"counts", 12}, {"bin", 8}, {"release", 4}, {"index", 3}, {"bigcard", 4}}}), false, false };
         P["C12"] = { "C12", K_ALL, true, true, false,
             cat({BUILD, CHURN, {{"bin", 30}, {"compl", 3}, {"copy", 8}, {"counts", 6}, {"image", 3}, {"cross", 2}, {"release", 8}, {"unary", 3}}}), false, false };
         P["C13"] = { "C13", K(FK_MTB)|K(FK_MTI)|K(FK_MTR)|K(FK_EVP), true, true, false,
@@ -72,7 +72,7 @@ static const Profile& profileFor(const std::string &prop)
         P["C14"] = { "C14", K_ALL|K(FK_IDX), true, true, false,
             cat({BUILD, {{"io", 30}, {"bin", 8}, {"release", 4}, {"reorder", 1}, {"index", 5}, {"copy", 3}}}), false, false };
         P["C15"] = { "C15", K(FK_MTB)|K(FK_IDX), true, false, false,
-            cat({BUILD, {{"index", 30}, {"bin", 10}, {"compl", 3}, {"release", 4}, {"card", 3}, {"iter", 3}}}), false, false };
+            cat({BUILD, {{"index", 30}, {"bin", 10}, {"compl", 3}, {"release", 4}, {"card", 3}, {"iter", 3}, {"bigcard", 5}}}), false, false };
         P["C16"] = { "C16", K_ALL, true, true, true,
             cat({BUILD, CHURN, {{"misuse", 30}, {"bin", 25}, {"iter", 4}, {"copy", 3}}}), false, false };
         P["C17"] = { "C17", K_ALL, true, true, true,
